@@ -84,7 +84,8 @@ Eval1(W, s) ==
              args == s.vals[n]
              below == SubSeq(s.kont, 1, Len(s.kont) - 1)
          IN IF Top(s.kont).w # "call" \/ ~IsHandler(W, f) \/ Len(below) > 1 THEN Out("unmod", <<>>, Nil, s.heap)
-            ELSE LET r == RetOf(W, f[2])
+            ELSE LET r0 == RetOf(W, f[2])
+                     r == IF r0[1] = "arg" THEN NthOrNil(args, r0[2]) ELSE r0    \* a handler returning its i-th argument
                      v == IF r = <<"raise">> THEN r          \* the handler raises an error
                           ELSE IF below = <<>> THEN r
                           ELSE IF below[1].w = "drop" THEN Nil
@@ -144,8 +145,8 @@ SpecOutcome(R) ==
     LET W == Worlds[R.w]  st == St0(R)  a == R.a  G == <<"t", W.G>> IN
     IF \E i \in 1..Len(a) : ~Known(a[i]) THEN Out("unmod", <<>>, Nil, st.heap)
     ELSE IF R.tmt # <<>> /\ R.op # "GetMetatable" THEN Out("unmod", <<>>, Nil, st.heap)   \* LuaSem knows no type metatables
-    ELSE CASE R.op \in {"GetTable", "GetField"} -> Eval1(W, DoIndex(st, a[1], a[2], NoPos, 100))
-           [] R.op \in {"SetTable", "SetField"} -> Eval1(W, DoNewIndex(st, a[1], a[2], a[3], NoPos, 100))
+    ELSE CASE R.op \in {"GetTable", "GetField", "GetFieldT"} -> Eval1(W, DoIndex(st, a[1], a[2], NoPos, 100))
+           [] R.op \in {"SetTable", "SetField", "SetFieldT"} -> Eval1(W, DoNewIndex(st, a[1], a[2], a[3], NoPos, 100))
            [] R.op = "GetGlobal" -> Eval1(W, DoIndex(st, G, a[1], NoPos, 100))
            [] R.op = "SetGlobal" -> Eval1(W, DoNewIndex(st, G, a[1], a[2], NoPos, 100))
            [] R.op = "Equal" -> Eval1(W, DoEq(st, a[1], a[2], FALSE, NoPos))
@@ -183,10 +184,10 @@ SpecFail(R, O) ==
     IF R.lua.err # (O.k = "err") THEN "err"
     ELSE IF ~CallsEq(R.lua.calls, O.calls) THEN "calls"
     ELSE IF R.op \in {"Next", "NextWalk"} THEN (IF NextOK(R, R.lua.res) THEN "" ELSE "result")
-    ELSE IF O.k = "val" /\ R.op \in {"SetTable", "SetField", "SetGlobal"} /\ Len(R.lua.res) # 0 THEN "result"
+    ELSE IF O.k = "val" /\ R.op \in {"SetTable", "SetField", "SetFieldT", "SetGlobal"} /\ Len(R.lua.res) # 0 THEN "result"
     ELSE IF O.k = "val" /\ R.op = "ProtectedSet"
             /\ ~(Len(R.lua.res) = 2 /\ TokEq(R.lua.res[1], O.v[1]) /\ TokEq(R.lua.res[2], O.v[2])) THEN "result"
-    ELSE IF O.k = "val" /\ R.op \notin {"SetTable", "SetField", "SetGlobal", "ProtectedSet"}
+    ELSE IF O.k = "val" /\ R.op \notin {"SetTable", "SetField", "SetFieldT", "SetGlobal", "ProtectedSet"}
             /\ ~(Len(R.lua.res) = 1 /\ TokEq(R.lua.res[1], O.v)) THEN "result"
     ELSE IF ~PostOK(R, O) THEN "post"
     ELSE ""
